@@ -275,6 +275,21 @@ class CSSRuleRules(CSSRule):
             self._log.error(f'{rule}: Not a CSSRule: {self.__class__.__name__}')
             return False, False
 
+        sheet = self.parentStyleSheet
+        if sheet is not None and rule.type in (rule.STYLE_RULE, rule.MEDIA_RULE):
+            # a rule object may bring selectors resolved elsewhere
+            undeclared = sheet._getUsedURIs([rule]).difference(
+                sheet.namespaces.values()
+            )
+            if undeclared:
+                self._log.error(
+                    '%s: Rule uses namespaces which are not declared in the '
+                    'style sheet: %s'
+                    % (self.__class__.__name__, ', '.join(sorted(undeclared))),
+                    error=xml.dom.NamespaceErr,
+                )
+                return False, False
+
         return rule, index
 
     def _finishInsertRule(self, rule, index):
